@@ -60,8 +60,9 @@ func TestVerifC16Publisher(t *testing.T) {
 			cur        *vcAttachedPub   // the model's single source slot
 			pubs       []*vcAttachedPub // every publisher ever attached (stale ones keep writing)
 			readers    []*c16Reader
-			staleWrite bool
-			replaced   bool
+			staleWrite   bool
+			replaced     bool
+			incompatible bool
 		)
 		fail := func(format string, args ...any) {
 			t.Fatalf("%s\n[override=%v alwaysAvailable=%v] %s", fmt.Sprintf(format, args...), override, aa, strings.Join(hist, " ; "))
@@ -101,6 +102,28 @@ func TestVerifC16Publisher(t *testing.T) {
 		}
 
 		t.Repeat(map[string]func(*rapid.T){
+			"addIncompatiblePublisher": func(t *rapid.T) {
+				// always-available streams have fixed tracks: a publisher announcing other tracks is refused,
+				// but (with overridePublisher) only after the current publisher has been closed and removed.
+				if !aa {
+					t.Skip("only meaningful with alwaysAvailable")
+				}
+				hist = append(hist, "addIncompatiblePublisher")
+				incompatible = true
+				old := cur
+				p, err := vcAttachPubDesc(pm.pathManager, "p", "pubX", vcDescH264())
+				if err == nil {
+					fail("publisher %s announcing H264 was attached to an always-available LPCM stream", p.ID)
+				}
+				if old != nil && override {
+					replaced = true
+					if old.CloseCnt.Load() == 0 {
+						fail("publisher %s was displaced by a (refused) new publisher but not closed", old.ID)
+					}
+					cur = nil
+				}
+				checkAPI("after refused incompatible publisher")
+			},
 			"addPublisher": func(t *rapid.T) {
 				hist = append(hist, "addPublisher")
 				old := cur
@@ -269,6 +292,9 @@ func TestVerifC16Publisher(t *testing.T) {
 		}
 		if aa {
 			cls = append(cls, "always-available")
+		}
+		if incompatible {
+			cls = append(cls, "incompatible-publisher")
 		}
 		sort.Strings(cls)
 		rec.Case(staleWrite && (replaced || aa), fmt.Sprintf("override=%v aa=%v: %s", override, aa, c16Anon(hist)), cls...)
